@@ -12,6 +12,7 @@ import NomtModel.Driver.ShardsMode
 import NomtModel.Driver.DeltaMode
 import NomtModel.Driver.OvfMode
 import NomtModel.Driver.LeafUpdMode
+import NomtModel.Driver.SeekMode
 /-!
 `nomt_model`: the executable Lean model behind a line protocol.
 First argument selects the sub-protocol; stdin → stdout, one output line per input line.
@@ -43,4 +44,5 @@ def main (args : List String) : IO UInt32 := do
   | ["delta"] => loop stdin stdout deltaStep {}; return 0
   | ["overflow"] => loop stdin stdout OvfD.ovfStep {}; return 0
   | ["leafupd"] => loop stdin stdout leafupdStep none; return 0
+  | ["seek"] => loop stdin stdout seekStep {}; return 0
   | _ => IO.eprintln "usage: nomt_model <core|...>"; return 2
